@@ -210,7 +210,10 @@ where
                         .map_err(CodecError::DecompressFailure)?;
                 }
 
-                let batch = decode_message_batch(bytes)?;
+                // Messages are handed out with `Vec::pop`, i.e. from the tail, so store the batch
+                // back to front to yield them in the order they were published
+                let mut batch = decode_message_batch(bytes)?;
+                batch.reverse();
                 self.message_batch = Some(batch);
                 self.poll_next(cx)
             }
